@@ -42,7 +42,7 @@ def task_cpu_limit(tier):
     try:
         return float(os.environ.get('VERIF_TASK_CPU_LIMIT', ''))
     except ValueError:
-        return 300.0 if tier == 'quick' else 3000.0
+        return 150.0 if tier == 'quick' else 2400.0
 
 
 _TIER = {'tier': 'quick'}
@@ -154,7 +154,7 @@ def _worker(fn, tasks, idx, n, conn):
         out = []
         for i in range(idx, len(tasks), n):
             # CPU-time watchdog around every task: a library loop that never ends becomes a verdict, not a stuck check
-            signal.setitimer(signal.ITIMER_PROF, task_cpu_limit(_TIER['tier']))
+            signal.setitimer(signal.ITIMER_PROF, task_cpu_limit(_TIER['tier']), 5.0)   # re-fires if swallowed
             try:
                 out.append((i, fn(tasks[i])))
             finally:
@@ -217,7 +217,11 @@ def safe_task(fn, prop, tier, seed):
             acc.count('tasks_skipped_after_a_timeout_in_this_worker')
             return acc
         try:
-            return fn(task)
+            acc = fn(task)
+            for sig, (n, dets) in acc.violations.items():
+                for d in dets:
+                    d['_task'] = {'task_index': idx, 'tier': tier, 'seed': seed}
+            return acc
         except Broken:
             raise
         except TaskTimeout:
@@ -284,6 +288,7 @@ def finish(mod, tier, seed, acc, desc, t0, replay_fn=None, extra_cov=None):
     os.makedirs(os.path.join(VERIF, 'replays'), exist_ok=True)
     new_viol = 0
     lines = []
+    unreproduced = []
     for sig in sorted(acc.violations):
         n, details = acc.violations[sig]
         if sig in known:
@@ -294,7 +299,20 @@ def finish(mod, tier, seed, acc, desc, t0, replay_fn=None, extra_cov=None):
         if replay_fn is not None and not sig.endswith('.no_termination'):
             again = replay_fn(first['case'])
             if sig not in again.violations:
-                raise Broken('case for %s did not fail again when re-executed alone: %s' % (sig, first))
+                # not reproducible alone: it may depend on what the library did for EARLIER cases of the same task
+                # (state kept outside the objects under test). Re-run the whole task; if it fails again the
+                # replayable artefact is the task (a sequence of cases), otherwise the checker is at fault.
+                seq = first.get('_task')
+                again = replay_fn(seq) if seq else None
+                if again is None or sig not in again.violations:
+                    # depends on state left by other tasks of the same worker: cannot be replayed in isolation.
+                    # It is listed, but only reproducible violations decide the verdict.
+                    unreproduced.append((sig, n, first))
+                    lines.append('NOT-REPRODUCED sig=%s cases=%d observed=%s (failed during the run, passes when '
+                                 're-executed alone and with its task)' % (sig, n, first['observed']))
+                    continue
+                first = dict(first, case=dict(seq, then=first['case']),
+                             note=(first.get('note') or '') + ' [fails only after the earlier cases of this task]')
         digest = hashlib.sha1((prop + sig + json.dumps(first['case'], sort_keys=True)).encode()).hexdigest()[:12]
         path = os.path.join(VERIF, 'replays', '%s-%s.json' % (prop, digest))
         with open(path, 'w') as f:
@@ -306,6 +324,9 @@ def finish(mod, tier, seed, acc, desc, t0, replay_fn=None, extra_cov=None):
         lines.append('VIOLATION property=%s replay=%s' % (prop, path))
         lines.append('  sig=%s cases=%d observed=%s expected=%s note=%s' % (
             sig, n, first['observed'], first['expected'], first['note']))
+    if unreproduced and not new_viol:
+        raise Broken('violations were seen during the run but none fails again when re-executed: %s' % (
+            [u[0] for u in unreproduced],))
     cov = {
         'evaluations': acc.evaluations,
         'distinct_nontrivial': len(acc.keys),
